@@ -131,7 +131,7 @@ def check_batch(dirpath, cases, cx):
         span.append((start, name))
     open(dirpath + '/src/lib.rs', 'w').write('\n'.join(lines) + '\n')
     env = dict(cx['ENV'], RUSTFLAGS='', CARGO_TARGET_DIR=cx['CACHE'] + '/c18_target')
-    p = subprocess.run(['cargo', 'check', '--offline', '--message-format=json', '--lib'], cwd=dirpath, env=env, stdout=subprocess.PIPE, stderr=subprocess.PIPE, text=True, timeout=2400)
+    p = subprocess.run(['cargo', 'check', '--offline', '--message-format=json', '--lib'], cwd=dirpath, env=env, stdout=subprocess.PIPE, stderr=subprocess.PIPE, text=True, errors='replace', timeout=2400)
     errs = {}
     other = []
     line_to_case = {s: n for s, n in span}
